@@ -68,6 +68,7 @@ func (w *Writer) Marshal(data any) ([]byte, error) {
 func (w *Writer) Write(wr io.Writer, data any) (err error) {
 	w.w = wr
 	_, err = w.encode(data)
+	w.w = nil
 
 	return
 }
